@@ -42,6 +42,8 @@ pub struct PoolIndex {
     pub rel_exprs: Vec<u32>,
     /// expressions of origin arg_lattice (one formula, 256 evenly spaced placeholders), per evaluator
     pub lattice_exprs: Vec<Vec<u32>>,
+    /// entries of origin new_words (built around words that only the added lines of the change quote)
+    pub new_words: Vec<u32>,
 }
 
 pub const FN_TOKENS: [&str; 64] = [
@@ -159,6 +161,11 @@ pub fn index_pool(pool: &mut Pool) -> PoolIndex {
             }
         }
     }
+    for (i, e) in pool.entries.iter().enumerate() {
+        if e.origin == "new_words" {
+            ix.new_words.push(i as u32);
+        }
+    }
     for (i, s) in ix.entry_sensitive.iter().enumerate() {
         pool.entries[i].sensitive = *s;
     }
@@ -252,6 +259,8 @@ fn stall_wrap_spec(pool: &Pool, seed: u64, base: usize) -> RunSpec {
         stack_depths: vec![vec![], vec![]],
         cpu_limits: vec![0, 0],
         kill_step: 0,
+        io_fault: io_plan(seed, 20),
+        power: 0,
         next: None,
     }
 }
@@ -341,6 +350,8 @@ fn crowd_spec(pool: &Pool, ix: &PoolIndex, seed: u64) -> RunSpec {
         stack_depths: vec![vec![]; n],
         cpu_limits: vec![0; n],
         kill_step: 0,
+        io_fault: io_plan(seed, 20),
+        power: 0,
         next: None,
     }
 }
@@ -425,6 +436,8 @@ fn restart_spec(pool: &Pool, ix: &PoolIndex, seed: u64, allow_intra: bool) -> Ru
             stack_depths: vec![vec![]; nthreads],
             cpu_limits: vec![0; nthreads],
             kill_step,
+            io_fault: io_plan(mix(seed, ph as u64), 60),
+            power: if ph + 1 < phases && mix(seed, 0x70_7772 + ph as u64) % 100 < 50 { mix(seed, 0x70_7773 + ph as u64) | 1 } else { 0 },
             next: None,
         });
     }
@@ -434,6 +447,85 @@ fn restart_spec(pool: &Pool, ix: &PoolIndex, seed: u64, allow_intra: bool) -> Ru
         chain = Some(sp);
     }
     chain.unwrap()
+}
+
+/// A run around syntax the change under test may have introduced: one or two calls that use a new word (chosen by
+/// kind of outcome first, so that the rare ones - accepted, or failing inside - are not drowned among the rejected),
+/// then one call of every function / operator bucket of an evaluator, each compared with its isolated evaluation:
+/// whatever the new construct leaves behind, some existing function meets it.
+fn new_word_spec(pool: &Pool, ix: &PoolIndex, seed: u64, allow_intra: bool) -> RunSpec {
+    let mut r = Rng::new(mix(seed, 0x6e65_7777_6f72));
+    let mut groups: std::collections::BTreeMap<(u8, String), Vec<u32>> = std::collections::BTreeMap::new();
+    for e in ix.new_words.iter() {
+        let en = &pool.entries[*e as usize];
+        let key = match &en.oracle {
+            Outcome::Ok(_) => "ok".to_string(),
+            Outcome::Err(v, m) => format!("{} {}", v, m.chars().filter(|c| !c.is_ascii_digit()).take(28).collect::<String>()),
+            Outcome::Panic(m) => format!("panic {}", m.chars().filter(|c| !c.is_ascii_digit()).take(28).collect::<String>()),
+        };
+        groups.entry((en.call.ev as u8, key)).or_default().push(*e);
+    }
+    let groups: Vec<Vec<u32>> = groups.into_values().collect();
+    let nthreads = [1usize, 1, 1, 2, 2, 3][r.below(6)];
+    let mut clients: Vec<Vec<u32>> = Vec::new();
+    for _ in 0..nthreads {
+        let mut calls: Vec<u32> = Vec::new();
+        let first = { let g = r.below(groups.len()); *r.pick(&groups[g]) };
+        let ev = pool.entries[first as usize].call.ev;
+        calls.push(first);
+        if r.chance(0.4) {
+            { let g = r.below(groups.len()); calls.push(*r.pick(&groups[g])); }
+        }
+        // probes: one call per function bucket, of the same evaluator or (one run in three) of any
+        let any_ev = r.chance(0.33);
+        let mut probes: Vec<u32> = Vec::new();
+        for (bev, _tok, list) in ix.fn_buckets.iter() {
+            if (any_ev || *bev == ev as u8) && !list.is_empty() && r.chance(if any_ev { 0.4 } else { 0.9 }) {
+                probes.push(*r.pick(list));
+            }
+        }
+        r.shuffle(&mut probes);
+        probes.truncate(70);
+        let mid = probes.len() / 2;
+        for (i, p) in probes.iter().enumerate() {
+            if i == mid && r.chance(0.3) {
+                { let g = r.below(groups.len()); calls.push(*r.pick(&groups[g])); }
+            }
+            calls.push(*p);
+        }
+        clients.push(calls);
+    }
+    let policy = if nthreads == 1 { Policy::Serial } else { pick_policy(&mut r, nthreads, RunKind::Short, allow_intra) };
+    let est_steps: u64 = clients.iter().map(|c| c.iter().map(|e| pool.entries[*e as usize].ticks as u64 + 1).sum::<u64>() + 1).sum();
+    RunSpec {
+        seed,
+        clients,
+        churn: vec![vec![]; nthreads],
+        policy,
+        start: 0,
+        switches: Vec::new(),
+        est_steps,
+        want_trace: false,
+        faults_enabled: vec!["new_words"],
+        clock_jumps: vec![vec![]; nthreads],
+        stack_depths: vec![vec![]; nthreads],
+        cpu_limits: vec![0; nthreads],
+        kill_step: 0,
+        io_fault: 0,
+        power: 0,
+        next: None,
+    }
+}
+
+/// fault kind F11: the run's plan of injected I/O errors, drawn apart from the run's other choices (0 = none;
+/// the two low bits choose the rate, see disk.rs)
+pub fn io_plan(seed: u64, percent: u64) -> u64 {
+    let h = mix(seed, 0x696f_6661_756c);
+    if (h >> 8) % 100 < percent {
+        h | 4
+    } else {
+        0
+    }
 }
 
 pub const FAULT_NAMES: [&str; 10] = [
@@ -485,6 +577,9 @@ pub fn make_spec(pool: &Pool, ix: &PoolIndex, seed: u64, kind: RunKind, allow_in
     }
     if kind == RunKind::Restart {
         return restart_spec(pool, ix, seed, allow_intra);
+    }
+    if kind == RunKind::Short && !ix.new_words.is_empty() && mix(seed, 0x6e77_6f72_64) % 100 < 30 {
+        return new_word_spec(pool, ix, seed, allow_intra);
     }
     let mut r = Rng::new(mix(seed, 0x776f_726b));
     let nthreads = match kind {
@@ -850,6 +945,8 @@ pub fn make_spec(pool: &Pool, ix: &PoolIndex, seed: u64, kind: RunKind, allow_in
         stack_depths: depths,
         cpu_limits: cpus,
         kill_step: 0,
+        io_fault: io_plan(seed, 20),
+        power: 0,
         next: None,
     }
 }
